@@ -210,9 +210,9 @@ def rev8(b):
 def hfe_side_bytes(cells, encoding, ops=None):
     """HFE stores cells LSB-first; FM is stored at double rate (raw bit 2i = 0,
     2i+1 = cell i).  ops (HFEv3 only): {data_byte_index: [(kind, arg), ...]} with
-    kinds nop / setindex / setbitrate(arg) / skipbits(arg = number of bits of the
-    following byte that carry no data; the remaining 8-arg bits continue the
-    cell stream)."""
+    kinds nop / setindex / setbitrate(arg) / skipbits(arg & 7 = number of bits of the
+    following byte that carry no data, arg >> 3 = the don't-care content of those bits;
+    the remaining 8-(arg&7) bits continue the cell stream)."""
     if encoding == "FM":
         raw = bytearray(2 * len(cells))
         raw[1::2] = bytes(cells)
@@ -243,7 +243,8 @@ def hfe_side_bytes(cells, encoding, ops=None):
                 out.append(rev8(0xF3))
                 out.append(rev8(arg & 7))
                 k = arg & 7
-                bits = [0] * k + list(raw[pos:pos + 8 - k])
+                fill = arg >> 3           # what the k skipped ("don't care") bits hold
+                bits = [(fill >> i) & 1 for i in range(k)] + list(raw[pos:pos + 8 - k])
                 pos += 8 - k
                 bits += [0] * (8 - len(bits))
                 out.append(pack(bits))
